@@ -352,7 +352,8 @@ class cstruct:
         null_terminated = False
         if isinstance(num_entries, int):
             # A constant count below zero is no entries, like a count that is computed from other fields
-            num_entries = max(0, num_entries)
+            # (an enum member is taken by its value)
+            num_entries = max(0, int(num_entries))
 
         if num_entries is None:
             null_terminated = True
